@@ -6,6 +6,7 @@ every frame list, payload, fragmentation, framer parameter, byte string.
 import Compio.Lemmas.Frame
 import Compio.Lemmas.Cmsg
 import Compio.Lemmas.CmsgRoundtrip
+import Compio.Lemmas.CmsgRefuse
 
 namespace Compio.Props.C13
 open Compio Compio.Frame
@@ -421,6 +422,74 @@ theorem cmsg_all_that_fit_are_accepted (cap : Nat) (b : Builder) (hnew : Builder
     · simp at hnew
     · simp at hnew; subst hnew; rfl
   exact pushAll_all_ok msgs b [] hb hwf (by simp [flat, hcap] at *; exact hfit)
+
+/-! ### payload encoders that may fail (session 3, seed C13-5a) -/
+
+open Compio.Cmsg in
+/-- a push whose `AncillaryData::encode` fails leaves the builder exactly as it was (cursor, length,
+bytes) and is never reported as accepted — whatever the builder state -/
+theorem cmsg_refused_push_is_noop (b : Builder) (l t d : Bytes) :
+    (b.pushR true l t d).1 = b ∧ (b.pushR true l t d).2 ≠ .ok := by
+  refine ⟨pushR_refused_noop b l t d, ?_⟩
+  unfold Builder.pushR; split
+  · simp
+  · split <;> simp
+
+open Compio.Cmsg in
+/-- with an encoder that does not fail, `pushR` is `push` (the function of the theorems above) -/
+theorem cmsg_pushR_willing_eq_push (b : Builder) (l t d : Bytes) :
+    (b.pushR false l t d).1 = (b.push l t d).1 ∧
+    ((b.pushR false l t d).2 = .ok ↔ (b.push l t d).2 = .ok) := by
+  cases h : b.offset with
+  | none => simp [Builder.pushR, Builder.push, h]
+  | some off =>
+    by_cases h2 : off + space d.length ≤ b.cap <;> simp [Builder.pushR, Builder.push, h, h2]
+
+open Compio.Cmsg in
+/-- **Builder / iterator round trip with failing encoders.** Push any sequence of well-formed messages
+into a fresh builder of any capacity, each with an encoder that either works or fails (arbitrary
+pattern): the finished buffer is exactly the accepted messages laid out one after the other, the
+iterator yields exactly them in order, and each decodes to its payload. In particular a refused
+message leaves no trace and does not displace a later one. -/
+theorem cmsg_builder_refusing_roundtrip (cap : Nat) (b : Builder) (hnew : Builder.new cap = .ok b)
+    (its : List Item) (hwf : ∀ it ∈ its, it.2.wf) :
+    let acc := acceptedR its (b.pushAllR its).2
+    (b.pushAllR its).1.finish = flat acc ∧
+    (acc ≠ [] → iter (b.pushAllR its).1.finish = .msgs (hdrsFrom 0 acc)) ∧
+    decodeAll (b.pushAllR its).1.finish 0 acc = acc.map (fun m => Decoded.ok m.2.2) := by
+  intro acc
+  have hinv := pushAllR_inv its b [] (binv_new cap b hnew) hwf
+  simp only [List.nil_append] at hinv
+  have hfin := finish_eq _ _ hinv
+  have hacc : ∀ m ∈ acc, m.wf := fun m hm => by
+    obtain ⟨it, hit, e⟩ := acceptedR_subset its _ m hm
+    exact e ▸ hwf it hit
+  refine ⟨hfin, ?_, ?_⟩
+  · intro hne
+    rw [hfin]
+    exact iter_flat acc hacc hne
+  · rw [hfin]
+    simpa using decodeAll_flat acc [] hacc
+
+open Compio.Cmsg in
+/-- "any list that fits": when the messages whose encoder works fit the buffer together, exactly
+they are accepted — a refused push does not use up a slot -/
+theorem cmsg_willing_that_fit_are_accepted (cap : Nat) (b : Builder) (hnew : Builder.new cap = .ok b)
+    (its : List Item) (hwf : ∀ it ∈ its, it.2.wf) (hfit : (flat (willing its)).length ≤ cap) :
+    acceptedR its (b.pushAllR its).2 = willing its := by
+  have hb := binv_new cap b hnew
+  have hcap : b.cap = cap := by
+    unfold Builder.new at hnew
+    split at hnew
+    · simp at hnew
+    · simp at hnew; subst hnew; rfl
+  exact pushAllR_willing its b [] hb hwf (by simp [flat, hcap] at *; exact hfit)
+
+/-- non-vacuity: accepted, refused, accepted in a 64-byte buffer: both accepted messages come back -/
+example : (match Compio.Cmsg.Builder.new 64 with
+    | .ok b => (b.pushAllR [(false, [1,0,0,0], [10,0,0,0], [7]), (true, [2,0,0,0], [20,0,0,0], [8]),
+                            (false, [3,0,0,0], [30,0,0,0], [9])]).2
+    | .panic => []) = [.ok, .refused, .ok] := by decide
 
 /-! ## 5. Non-vacuity: the hypotheses above are met by concrete, non-trivial data -/
 
